@@ -401,6 +401,10 @@ impl Builder {
         exclude: &mut Vec<[u8; 59]>,
     ) -> Option<Transaction> {
         let gp = self.params.gp;
+        if from == 0 && self.params.stake > 0 {
+            // the creator's wallet picks its own outputs for the staking transaction
+            return None;
+        }
         let ledger = self.store.ledger(at);
         let payer = self.actors[from].clone();
         let mut outs: Vec<OutRef> = ledger
